@@ -13,6 +13,7 @@ type closureEffect struct {
 	cells map[int]bool      // indices of free variables stored to directly
 	heaps map[string]string // whole state variables written (name -> sort)
 	wild  bool
+	allocs bool
 }
 
 func (g *Gen) closureEffects(fn *ssa.Function, depth int) closureEffect {
@@ -82,8 +83,36 @@ func (g *Gen) closureEffects(fn *ssa.Function, depth int) closureEffect {
 				ci := g.resolveCallee(x.Common())
 				if ci.kind == "builtin" {
 					switch ci.key {
-					case "append", "copy", "delete", "clear":
-						ce.wild = true // conservative
+					case "append", "copy":
+						// writes the element heap of the destination's element type (fresh or existing array)
+						if st, ok := x.Common().Args[0].Type().Underlying().(*types.Slice); ok {
+							if stt, isSt := structOf(st.Elem()); isSt {
+								if !g.structTransparent(st.Elem()) {
+									ce.wild = true
+									continue
+								}
+								for i := 0; i < stt.NumFields(); i++ {
+									hn, vs, ft := g.fieldHeap(st.Elem(), i)
+									if _, nested := structOf(ft); !nested {
+										ce.heaps[hn] = "(Array Int " + vs + ")"
+									}
+								}
+							} else {
+								h, s := g.elemHeap(st.Elem())
+								ce.heaps[h] = "(Array Int (Array Int " + s + "))"
+							}
+							ce.allocs = true
+						} else {
+							ce.wild = true
+						}
+					case "delete", "clear":
+						if mt, ok := x.Common().Args[0].Type().Underlying().(*types.Map); ok {
+							md, mv, ks, vs := g.mapHeaps(mt)
+							ce.heaps[md] = "(Array Int (Array " + ks + " Bool))"
+							ce.heaps[mv] = "(Array Int (Array " + ks + " " + vs + "))"
+						} else {
+							ce.wild = true
+						}
 					}
 					continue
 				}
@@ -132,7 +161,11 @@ func (g *Gen) callbackInvariants(c *ssa.CallCommon, ins ssa.Instruction, assert 
 				continue
 			}
 			if assert {
-				g.oblige("cbinv", shortKey(canon(fn))+":"+cl.Label, t.S, cl.Where, cl.Text, cl.Props)
+				props := cl.Props
+				if len(props) == 0 {
+					props = con.Props
+				}
+				g.oblige("cbinv", shortKey(canon(fn))+":"+cl.Label, t.S, cl.Where, cl.Text, props)
 			} else {
 				g.assume(t.S)
 			}
@@ -168,6 +201,9 @@ func (g *Gen) applyCallbacks(c *ssa.CallCommon) {
 			if ad.T != nil {
 				g.assume(g.typeInv(nv, ad.T))
 			}
+		}
+		if ce.allocs {
+			g.bumpAlloc()
 		}
 		for h, s := range ce.heaps {
 			g.havocSV(h, s)
